@@ -10,6 +10,7 @@ use std::time::Duration;
 use vh::runner::{hash_of, CaseReport, CaseResult, Ctx, Failure};
 use vh::util::escape;
 
+mod elf;
 mod gen;
 mod launch;
 use gen::{lookup_case, startup_case, Case, BUILD_CLASS, MODES};
@@ -95,6 +96,8 @@ pub struct Echo {
     random_at: Option<[u8; 16]>,
     execfn_at: Option<Vec<u8>>,
     clock: [i64; 6],
+    /// load base and the words found at the requested link-time addresses
+    peek: Option<(u64, Vec<u64>)>,
 }
 
 fn u64le(b: &[u8]) -> Option<u64> {
@@ -175,6 +178,14 @@ pub fn parse(out: &[u8]) -> Result<Echo, String> {
     let r = take(&mut it, b'r')?;
     e.random_at = if r.is_empty() { None } else { Some(r.as_slice().try_into().map_err(|_| bad("r length"))?) };
     e.execfn_at = opt_bytes(&take(&mut it, b'e')?).ok_or_else(|| bad("e"))?;
+    if it.peek().map(|r| r.0) == Some(b'B') {
+        let base = u64le(&take(&mut it, b'B')?).ok_or_else(|| bad("B"))?;
+        let w = take(&mut it, b'p')?;
+        if w.len() % 8 != 0 {
+            return Err(bad("p length"));
+        }
+        e.peek = Some((base, w.chunks(8).map(|c| u64::from_le_bytes(c.try_into().unwrap())).collect()));
+    }
     let t = take(&mut it, b'T')?;
     if t.len() != 48 {
         return Err(bad("T length"));
@@ -221,6 +232,8 @@ pub struct Env<'a> {
     pub probe_dir: String,
     /// the driver may change the probe's uid/gid
     pub root: bool,
+    /// relocation tables of the six builds (read from the executables)
+    pub relocs: [Option<elf::RelocInfo>; 6],
     /// signature this sub-check is shrinking towards (set at its first failure)
     pub target: RefCell<Option<String>>,
 }
@@ -285,7 +298,7 @@ fn judge_lookup(api: &str, envp: &[Vec<u8>], key: &[u8], obs: &Look, is_str_api:
 }
 
 /// All deviations of one probe run from the model, most specific first; prefix-defect lookups last.
-fn judge(case_argv: &[Vec<u8>], envp: &[Vec<u8>], keys: &[Vec<u8>], path: &str, mode: &str, e: &Echo, scope: Scope, ids: (u32, u32)) -> Vec<Failure> {
+fn judge(case_argv: &[Vec<u8>], envp: &[Vec<u8>], keys: &[Vec<u8>], path: &str, mode: &str, e: &Echo, scope: Scope, ids: (u32, u32), relocs: Option<&elf::RelocInfo>) -> Vec<Failure> {
     let mut f: Vec<Failure> = Vec::new();
     if scope == Scope::All {
         let argc = case_argv.len() as u64;
@@ -378,6 +391,36 @@ fn judge(case_argv: &[Vec<u8>], envp: &[Vec<u8>], keys: &[Vec<u8>], path: &str, 
                 _ => {}
             }
         }
+        // static PIE: every relative relocation slot as the start-up code left it
+        if let Some(ri) = relocs {
+            match &e.peek {
+                Some((base, words)) if words.len() == ri.relative.len() => {
+                    for ((off, addend), w) in ri.relative.iter().zip(words) {
+                        let want = base.wrapping_add(*addend);
+                        if *w == want {
+                            continue;
+                        }
+                        let in_relro = ri.relro.map(|(a, b)| *off >= a && *off + 8 <= b).unwrap_or(false);
+                        if in_relro {
+                            // nothing writes to the RELRO part after start-up
+                            f.push(Failure::new(
+                                "start::relocate|wrong-slot|read-only-after-relocation slot differs from base + addend",
+                                format!("[{mode}] slot at link address {off:#x} (addend {addend:#x}) holds {w:#x}, load base {base:#x}: expected {want:#x}"),
+                            ));
+                            break;
+                        } else if *w == *addend && *base != 0 {
+                            // a writable slot may have been reassigned by the program, but never to its own link-time value
+                            f.push(Failure::new(
+                                "start::relocate|unrelocated-slot|writable slot still holds its link-time value",
+                                format!("[{mode}] slot at link address {off:#x} still holds its addend {addend:#x}; load base {base:#x}, expected {want:#x}"),
+                            ));
+                            break;
+                        }
+                    }
+                }
+                other => f.push(Failure::new(format!("probe-env|malformed output|{mode}"), format!("[{mode}] {} relocation slots requested, answer: {:?}", ri.relative.len(), other.as_ref().map(|p| p.1.len())))),
+            }
+        }
         // clock: (sec, nsec) of syscall, now(), syscall
         let t = |i: usize| (e.clock[2 * i], e.clock[2 * i + 1]);
         let (t0, tn, t1) = (t(0), t(1), t(2));
@@ -429,10 +472,11 @@ pub fn run_case(env: &Env, c: &Case, scope: Scope) -> CaseResult {
     if argv.is_empty() {
         return Ok(rep); // only reachable from a hand-written replay file
     }
-    let mut stdin = Vec::new();
+    let mut key_records = Vec::new();
     for k in &keys {
-        stdin.extend_from_slice(&(k.len() as u32).to_le_bytes());
-        stdin.extend_from_slice(k);
+        key_records.push(b'K');
+        key_records.extend_from_slice(&(k.len() as u32).to_le_bytes());
+        key_records.extend_from_slice(k);
     }
 
     // ---- classes (properties of the input, judged by the model)
@@ -491,6 +535,18 @@ pub fn run_case(env: &Env, c: &Case, scope: Scope) -> CaseResult {
         done[b] = true;
         let mode = MODES[b];
         let path = probe_path(&env.probe_dir, b);
+        // self-relocating builds are also asked for the words at their relocation slots
+        let relocs = env.relocs[b].as_ref().filter(|r| scope == Scope::All && r.self_relocating && !r.relative.is_empty());
+        let mut stdin = key_records.clone();
+        if let Some(ri) = relocs {
+            stdin.push(b'P');
+            stdin.extend_from_slice(&((ri.relative.len() as u32 + 1) * 8).to_le_bytes());
+            stdin.extend_from_slice(&ri.phdr_vaddr.to_le_bytes());
+            for (off, _) in &ri.relative {
+                stdin.extend_from_slice(&off.to_le_bytes());
+            }
+            rep.class("relocation-slots-inspected");
+        }
         let o = match launch::run(&path, &argv, &envp, &stdin, Duration::from_secs(20), set_ids) {
             Ok(o) => o,
             Err(launch::LaunchError::Spawn(errno, what)) => {
@@ -525,7 +581,7 @@ pub fn run_case(env: &Env, c: &Case, scope: Scope) -> CaseResult {
             }
         }
         match parse(&o.stdout) {
-            Ok(e) => fails.extend(judge(&argv, &envp, &keys, &path, mode, &e, scope, run_ids)),
+            Ok(e) => fails.extend(judge(&argv, &envp, &keys, &path, mode, &e, scope, run_ids, relocs)),
             Err(why) => fails.push(Failure::new(format!("probe-env|malformed output|{mode}"), format!("[{mode}] exit 0 but {why}"))),
         }
     }
@@ -592,16 +648,21 @@ pub fn run(ctx: &Ctx) {
     }
     ctx.extra("probe", serde_json::json!(format!("{root}/probes/env (probe-env), builds: {}", MODES.join(" "))));
     let thorough = ctx.thorough();
+    let relocs: [Option<elf::RelocInfo>; 6] = std::array::from_fn(|b| elf::read(&probe_path(&root, b)));
+    ctx.extra(
+        "relocations",
+        serde_json::json!(relocs.iter().enumerate().map(|(b, r)| format!("{}: {}", MODES[b], r.as_ref().map(|r| format!("{} relative, self-relocating={}", r.relative.len(), r.self_relocating)).unwrap_or_else(|| "unreadable".into()))).collect::<Vec<_>>()),
+    );
     // changing the probe's ids needs root and a probe that other users may execute: try once
     let is_root = unsafe { libc::geteuid() } == 0
         && matches!(launch::run(&probe_path(&root, 3), &[b"probe-env".to_vec()], &[], &[], Duration::from_secs(20), Some((4242, 2424))), Ok(o) if o.exit == Some(0));
     ctx.extra("probe_ids", serde_json::json!(if is_root { "driver is root: 3 cases in 4 run the probe under generated uid/gid (fork+setgid+setuid+execve)" } else { "driver ids inherited (posix_spawn only)" }));
 
     // focused lookups first: what they report, the full sub-check does not report again
-    let env = Env { ctx, probe_dir: root.clone(), root: is_root, target: RefCell::new(None) };
+    let env = Env { ctx, probe_dir: root.clone(), root: is_root, relocs: relocs.clone(), target: RefCell::new(None) };
     ctx.run_prop_opts("lookup-var", ctx.cases(150, 3000), 600, lookup_case(thorough), |c: &Case| run_case(&env, c, Scope::Var));
-    let env = Env { ctx, probe_dir: root.clone(), root: is_root, target: RefCell::new(None) };
+    let env = Env { ctx, probe_dir: root.clone(), root: is_root, relocs: relocs.clone(), target: RefCell::new(None) };
     ctx.run_prop_opts("lookup-var-unix", ctx.cases(150, 3000), 600, lookup_case(thorough), |c: &Case| run_case(&env, c, Scope::VarUnix));
-    let env = Env { ctx, probe_dir: root, root: is_root, target: RefCell::new(None) };
+    let env = Env { ctx, probe_dir: root, root: is_root, relocs: relocs.clone(), target: RefCell::new(None) };
     ctx.run_prop_opts("startup", ctx.cases(1200, 30_000), 1500, startup_case(thorough), |c: &Case| run_case(&env, c, Scope::All));
 }
